@@ -53,10 +53,18 @@ def gen_cases(rng, tier):
         payload = nv_all(before) + crit_enc + nv_all(after)
         s = len(nv_all(before))
         e = s + len(crit_enc)
-        place = rng.choice(["start", "middle", "end", "across2", "across3", "own"])
+        place = rng.choice(["start", "middle", "end", "across2", "across3", "own", "split-long"])
+        if place == "split-long":
+            # the critical pair is cut by a record boundary and the SECOND record goes on with many more small pairs: that record
+            # is longer than the buffer although every pair is within the bound
+            after = after + rand_pairs(rng, rng.randrange(4, 10), max(1, min(10, (Be - 14) // 2)))
+            after = [(n[:max(0, (Be - 13) // 2)], v[:max(0, (Be - 13) // 2)]) for n, v in after]
+            pairs = before + [crit] + after
+            payload = nv_all(before) + crit_enc + nv_all(after)
         cuts = {"start": [s] if s else [], "middle": [], "end": [e], "own": [s, e],
                 "across2": [s, rng.randrange(s + 1, e) if e - s > 1 else s, e],
-                "across3": sorted(set([s, e] + [rng.randrange(s + 1, e) for _ in range(2)] if e - s > 1 else [s, e]))}[place]
+                "across3": sorted(set([s, e] + [rng.randrange(s + 1, e) for _ in range(2)] if e - s > 1 else [s, e])),
+                "split-long": [rng.randrange(s + 1, e)] if e - s > 1 else []}[place]
         recs = [begin(1, 1, 1)] + stream_records(PARAMS, 1, payload, cuts, pads=[rng.choice([0, 7, 255])])
         w = flat(recs) + rng.choice([[], record(STDIN, 1, [1, 2])])
         sched = schedule(rng, len(w), rng.choice(["greedy", "one", "random"]))
